@@ -12,6 +12,7 @@ with a separate exact, non-trivial target per stage (so that no stage fit degene
 from __future__ import annotations
 
 import itertools
+import math
 import json
 from fractions import Fraction as Fr
 
@@ -28,16 +29,18 @@ CLAIM = dict(
     "accumulates is exactly that for every stage mode, hence after any sequence of stages applying the accumulated balance "
     "equals applying the stage balances one after the other; the least-squares objective is >= 0 and = 0 at the true map when "
     "the destinations are an exact image (exact maps are global minimisers), CONVERSELY a zero objective reproduces every "
-    "destination (residual_zero_reproduces, residual_zero_iff), and the optimiser contract is isolated: any search returning a point "
-    "no worse than its start never increases the residual (fit_never_increases) and any point no worse than the truth reproduces an "
-    "exactly solvable fit (exact_fit_reproduces) - so the observed part is exactly 'Powell returns a point no worse than its start / "
-    "than the truth within tolerance'. The objective closures, start vectors and result unpacking of find_balance are tied exactly "
-    "with the optimiser replaced by a recorder. clip=True is modelled (pipelineClip, clip01_range). For the unfixed accumulation (A_new·A_prev, "
+    "destination (residual_zero_reproduces, residual_zero_iff), and the epsilon-bridge residual_le_bound / residual_le_bound_component: "
+    "objective <= eps implies every balanced swatch is within sqrt(eps) of its destination - this is what connects the objective a "
+    "float optimiser reaches (~1e-10, never 0) to 'reproduces the destinations within tolerance' (the oracle checks the measured "
+    "objective against this bound; exact_fit_reproduces is the idealised eps = 0 limit). That fitting NEVER INCREASES the residual "
+    "relative to its start is 100 % OBSERVED on the implementation (no theorem: it is a property of scipy's Powell search). The "
+    "objective closures, start vectors and result unpacking of find_balance are tied exactly with the optimiser replaced by a "
+    "recorder. clip=True is modelled (pipelineClip, clip01_range). For the unfixed accumulation (A_new·A_prev, "
     "translation untouched in non-affine stages) the negation is proved by witnesses and equality is proved for commuting "
     "stages with zero translation. Round 2: reshape commutes with the row-vector action (apply_flatten_commute, apply_chunk_commute: "
     "4x6x3 <-> 24x3; apply_rows_commute for swatches[-1] / swatches[:-1]) and the ColorCorrection.correct_array pipeline is the "
     "composition 'colour balance after white balance' on every pixel (pipeline_is_composition, pipeline_explicit x.D.A + b, "
-    "pipeline_colour_rows_exact). Tied exactly to the code by stubbing the stage fits with dyadic matrices, both on "
+    "pipeline_colour_rows_exact - a rewrite of its hypothesis, labelled). Tied exactly to the code by stubbing the stage fits with dyadic matrices, both on "
     "AdaptiveBalance, through the real ColorCorrection.correct_array on a synthetic dyadic checker, and through the one-shot entry "
     "points balance(img, src, dst) / white_balance / color_balance / affine_balance (call_is_apply_after_fit; pipeline_order_matters: "
     "the stage order cannot be swapped). "
@@ -307,9 +310,15 @@ def check_fit_case(d, case, cov=None):
         if after2 > after * (1 + 1e-9) + 1e-15:
             bad.append((f"C12:{cname}.find_balance:objective-increased(restart)", f"objective {after} -> {after2} on re-fit"))
         after = after2
+    # theorem residual_le_bound_component: every component error is at most sqrt(objective)
+    if err > math.sqrt(max(after, 0.0)) * (1 + 1e-9) + 1e-15:
+        bad.append((f"C12:{cname}:objective-does-not-bound-the-swatch-error", f"max error {err:.3g} > sqrt(objective) = {math.sqrt(max(after, 0.0)):.3g}"))
     if cov is not None:
         cov.setdefault("fit_error_max", {}).setdefault(mode, 0.0)
         cov["fit_error_max"][mode] = max(cov["fit_error_max"][mode], err)
+        cov["fit_objective_max"] = max(cov.get("fit_objective_max", 0.0), after)
+        cov["fit_tolerance_argument"] = ("TOL_FIT = 1e-4 on the swatches is implied by objective <= 1e-8 (residual_le_bound_component); "
+                                         "measured objective after the fit is recorded as fit_objective_max")
         cov["refits"] = cov.get("refits", 0) + int(refit)
     if err > TOL_FIT:
         bad.append((f"C12:{cname}.find_balance:exact-{mode}-map-not-recovered{tag}",
@@ -499,16 +508,21 @@ def corr_pipeline(ctx, d):
             n0, n1 = img.shape[:2]
             cc = d.ColorCorrection(config={"roi": [[0, 0], [n0 - 1, 0], [n0 - 1, n1 - 1], [0, n1 - 1]], "colorbalancing": mode,
                                            "whitebalancing": wb, "balancing": "darsia", "clip": clip})
+            import cv2
+
             queue, log = ([s1] if wb else []) + [s2], []
+            cv2.setRNGSeed(1234)
+            raw = CustomColorChecker(image=cc._restrict_to_roi(img)).swatches_rgb  # what the correction will extract (same RNG seed)
+            cv2.setRNGSeed(1234)
             with Stub(d, queue, log):
                 out = cc.correct_array(img.copy())
             if queue or len(log) != (2 if wb else 1):
                 raise ValueError("number of stage fits")
             A1 = np.array([[float(x) for x in r] for r in s1[1]]) if wb else np.eye(3)
-            if wb and not (log[0][0] == "diagonal" and log[0][2].shape == (6, 3) and np.allclose(log[0][2], sw[-1], atol=2e-2)):
+            if wb and not (log[0][0] == "diagonal" and log[0][2].shape == (6, 3) and np.allclose(log[0][2], raw[-1], rtol=0, atol=1e-12)):
                 raise ValueError("white-balance stage was not handed the grey row swatches[-1]")
             last = log[-1]
-            if not (last[0] == mode and last[2].shape == (3, 6, 3) and np.allclose(last[2], sw[:-1] @ A1, atol=2e-2 * max(1.0, float(np.abs(A1).max())))):
+            if not (last[0] == mode and last[2].shape == (3, 6, 3) and np.allclose(last[2], raw[:-1] @ A1, rtol=0, atol=1e-12)):
                 raise ValueError("colour stage was not handed the white-balanced colour rows swatches[:-1]")
             if out.dtype != np.float32 or out.shape != img.shape:
                 raise TypeError("dtype/shape")
